@@ -578,7 +578,77 @@ def guards_of(body, site):
             for tg in need:
                 vals.extend(tgt_vals[tg])
             out.append(Guard(body, bb, vals, need))
+    cache[k] = out  # (recursion guard: the derived guards below look at other sites)
+    out = _implied_guards(body, out)
     cache[k] = out
+    return out
+
+
+class ValueGuard(Guard):
+    """Derived guard: bool local `local` (or the result of the call defining it) is known to be `value`
+    (through a `let c = a && b; if c` temp)."""
+
+    def __init__(self, body, local, value, at_bb, cd=None):
+        self.body, self.bb, self.targets = body, at_bb, []
+        self.values = [None] if value else [0]
+        self.term = {"k": "switch", "discr": {"k": "copy", "pl": {"l": local, "p": []}}, "targets": [[0, -1]], "otherwise": -2}
+        self.derived = True
+        self._cd = cd
+
+    def cond_def(self):
+        return self._cd if self._cd is not None else Guard.cond_def(self)
+
+
+def _implied_guards(body, guards, depth=0):
+    """A switch on a bool temp that was assigned on several paths (`let c = a && b;`, `let c = a || b;`): if only one
+    of its definitions can produce the guarded value, everything that guards that definition also holds, and if that
+    definition copies another bool / is a call, that bool / call result has the guarded value too."""
+    out = list(guards)
+    seen = {(g.bb, tuple(g.values), None) for g in out}
+    work = list(guards)
+    n = 0
+    while work and n < 64:
+        n += 1
+        g = work.pop()
+        pol = g.polarity()
+        l = g.discr_local
+        if pol is None or l is None or body.locals[l] != "bool":
+            continue
+        for _ in range(6):
+            sd = body.single_def(l)
+            if sd and sd[1] == "assign" and sd[2]["rv"]["k"] == "use" and op_local(sd[2]["rv"]["op"]) is not None and not op_place(sd[2]["rv"]["op"])["p"]:
+                l = op_local(sd[2]["rv"]["op"])
+            else:
+                break
+        defs = body.defs.get(l, [])
+        if len(defs) < 2 or any(not (d[1] == "call" or (d[1] == "assign" and d[2]["rv"]["k"] == "use")) for d in defs):
+            continue
+        consistent = []
+        for site, kind, st in defs:
+            if kind == "call":
+                consistent.append((site, None, ("call", site, st)))
+                continue
+            c = const_int(st["rv"]["op"])
+            if c is not None:
+                if bool(c) == pol:
+                    consistent.append((site, None, None))
+            else:
+                consistent.append((site, op_local(st["rv"]["op"]), None))
+        if len(consistent) != 1:
+            continue
+        dsite, src, cd = consistent[0]
+        new = list(guards_of(body, dsite))
+        if src is not None:
+            new.append(ValueGuard(body, src, pol, dsite.bb))
+        elif cd is not None:
+            new.append(ValueGuard(body, l, pol, dsite.bb, cd))
+        for ng in new:
+            key = (ng.bb, tuple(ng.values), ng.discr_local if getattr(ng, "derived", False) else None)
+            if key in seen:
+                continue
+            seen.add(key)
+            out.append(ng)
+            work.append(ng)
     return out
 
 
